@@ -426,10 +426,12 @@ pub fn job_c15(out_dir: &str, tier: &str, seed: u64) {
     let mut n = 0usize;
     let mut max_us_per_kb = 0f64;
     let mut big_runs = 0usize;
+    let mut growth_checks = 0usize;
+    let mut max_ratio = 0f64;
     let mut emit = |sh: &mut Shards, cfg: &Value, input: &[u8], cuts: &[usize], n: &mut usize, keep_bytes: bool| -> f64 {
-        let t = std::time::Instant::now();
+        let t = cpu_now();
         let tl = driver::run(cfg, input, cuts, &RunOpts { poke_after_error: true, ..RunOpts::default() });
-        let dt = t.elapsed().as_secs_f64();
+        let dt = cpu_now() - t;
         *n += 1;
         let mut rec = record(&format!("c15-{}", *n), cfg, input, &tl, None, &["C15"]);
         if !keep_bytes {
@@ -515,11 +517,32 @@ pub fn job_c15(out_dir: &str, tier: &str, seed: u64) {
                 big_runs += 1;
                 let us_per_kb = dt * 1e6 / ((input.len() as f64) / 1024.0);
                 if us_per_kb > max_us_per_kb { max_us_per_kb = us_per_kb; }
-                if us_per_kb > 20000.0 {
-                    // > 20 ms per KiB: far outside "work proportional to input"; recorded as a panic-like event
-                    let rec = json!({"id": format!("c15-slow-{name}-{ci}"), "cfg": proto_cfg(&cfg, vec![], &["C15"]), "hasref": false, "ref": [],
-                        "tl": [{"e":"call","op":"new"},{"e":"enc"},{"e":"ret","res":"ok"},{"e":"call","op":"write","b":[]},{"e":"ret","res":"panic"}]});
-                    sh.push(&rec, &json!({"id": rec["id"], "slow_shape": name, "us_per_kb": us_per_kb}), None, true);
+                // "work stays proportional to input size", decided without a wall-clock threshold (which depends on the
+                // load of the machine): thread CPU time of the whole input against its first half.  Linear work gives a
+                // ratio of 2, quadratic work 4.  Only runs long enough to measure are compared, and an excess has to be
+                // reproduced three times before it is reported.
+                if dt > 0.1 {
+                    let half = &input[..input.len() / 2];
+                    let hc: Vec<usize> = cuts.iter().cloned().filter(|&c| c < half.len()).collect();
+                    let measure = |inp: &[u8], cs: &[usize]| -> f64 {
+                        let t = cpu_now();
+                        let _ = driver::run(&cfg, inp, cs, &RunOpts { poke_after_error: true, ..RunOpts::default() });
+                        cpu_now() - t
+                    };
+                    let mut ratio = f64::INFINITY;
+                    for _ in 0..3 {
+                        let th = measure(half, &hc).max(1e-6);
+                        let tf = measure(input, &cuts);
+                        ratio = ratio.min(tf / th);
+                        if ratio <= 3.3 { break; }
+                    }
+                    growth_checks += 1;
+                    if ratio > max_ratio { max_ratio = ratio; }
+                    if ratio > 3.3 {
+                        let rec = json!({"id": format!("c15-superlinear-{name}-{ci}"), "cfg": proto_cfg(&cfg, vec![], &["C15"]), "hasref": false, "ref": [],
+                            "tl": [{"e":"call","op":"new"},{"e":"enc"},{"e":"ret","res":"ok"},{"e":"call","op":"write","b":[]},{"e":"ret","res":"panic"}]});
+                        sh.push(&rec, &json!({"id": rec["id"], "superlinear_shape": name, "cpu_ratio_full_over_half": ratio, "cpu_us_per_kb": us_per_kb}), None, true);
+                    }
                 }
             }
         }
@@ -530,8 +553,15 @@ pub fn job_c15(out_dir: &str, tier: &str, seed: u64) {
         emit(&mut sh, &cfg, input, &[input.len() / 2], &mut n, false);
         big_runs += 1;
     }
-    sh.finish(json!({"rule": "random bytes, balanced documents, fragment sequences, mutated fragment sequences, punctuation floods x 20 handler sets x all 36 encodings x strict/esi/meta-charset/memory/graceful/failure-injection settings x random cuts (bytes judged); 13 pathological shapes (25k-100k-deep nesting, 1-4 MB tokens, thousands of attributes, floods) x 4 handler configurations x 3 schedules judged on lengths against the stream-level contract, wall-clock per KiB observed. Every call runs under catch_unwind in a build with debug assertions and overflow checks; a panic is an event the contract rejects. Non-trivial: every run.",
-        "pathological_runs": big_runs, "max_us_per_KiB": max_us_per_kb}));
+    sh.finish(json!({"rule": "random bytes, balanced documents, fragment sequences, mutated fragment sequences, punctuation floods x 20 handler sets x all 36 encodings x strict/esi/meta-charset/memory/graceful/failure-injection settings x random cuts (bytes judged); 13 pathological shapes (25k-100k-deep nesting, 1-4 MB tokens, thousands of attributes, floods) x 4 handler configurations x 3 schedules judged on lengths against the stream-level contract, and, for every run above 0.1 s of CPU, on growth (thread CPU time of the whole shape over its first half must stay below 3.3; linear = 2, quadratic = 4; re-measured three times). Every call runs under catch_unwind in a build with debug assertions and overflow checks; a panic is an event the contract rejects. Non-trivial: every run.",
+        "pathological_runs": big_runs, "max_cpu_us_per_KiB": max_us_per_kb, "growth_checks": growth_checks, "max_cpu_ratio_full_over_half": max_ratio}));
+}
+
+/// CPU time consumed by the calling thread, in seconds (independent of the load on the machine).
+pub fn cpu_now() -> f64 {
+    let mut ts = libc::timespec { tv_sec: 0, tv_nsec: 0 };
+    unsafe { libc::clock_gettime(libc::CLOCK_THREAD_CPUTIME_ID, &mut ts); }
+    ts.tv_sec as f64 + ts.tv_nsec as f64 * 1e-9
 }
 
 pub fn replay(job: &str, src: &Value, out_dir: &str) {
